@@ -4,9 +4,9 @@ reports exit codes, wall time and KNOWN-FINDING / VIOLATION / INFRA lines (a che
 import json, os, subprocess, sys, time
 # the checks run in a private copy of /verif (against /repo itself), so that /verif can be edited meanwhile
 import shutil
-COPY = "/tmp/vs/verif"
+COPY = "/tmp/vs%s/verif" % os.environ.get('SILENCE_TAG', '')
 shutil.rmtree(COPY, ignore_errors=True)
-os.makedirs("/tmp/vs", exist_ok=True)
+os.makedirs(os.path.dirname(COPY), exist_ok=True)
 subprocess.run(["rsync", "-a", "--exclude", ".git", "--exclude", ".build", "--exclude", "replays", "/verif/", COPY + "/"], check=True)
 tier = sys.argv[1]
 seeds = sys.argv[2:]
@@ -16,6 +16,8 @@ rows = []
 for seed in seeds:
     for c in man['checks']:
         pid = c['property_id']
+        if os.environ.get('SILENCE_ONLY') and pid not in os.environ['SILENCE_ONLY'].split(','):
+            continue
         t0 = time.time()
         e = dict(os.environ, VERIF_SEED=seed)
         r = subprocess.run(['./run.sh', pid, tier], cwd=COPY, env=e, stdout=subprocess.PIPE, stderr=subprocess.STDOUT, text=True)
